@@ -25,7 +25,7 @@ def seeded_table():
         if m.get("not_a_violation"):
             caught.append("judged not to violate the property as stated (see meta.json)")
         elif m.get("neutralised"):
-            caught.append("no longer a violation since fix D29 (see meta.json)")
+            caught.append("no longer a violation since a later repository fix (see meta.json)")
         conf = "yes" if ev.get("confirmed") else f"NO (demo {ev.get('demo_without')}/{ev.get('demo_with')}, tests: {ev.get('repo_tests')})"
         summ = str(m.get("summary", "")).replace("|", "/").replace("\n", " ")[:260]
         needs = str(m.get("needs", "")).replace("|", "/").replace("\n", " ")[:220]
